@@ -22,8 +22,14 @@ type pinned struct {
 	vals map[string]uint64
 }
 
+// one solver process serves every pinned execution of the self-test (resetPath empties its stack)
+var selftestSolver *Solver
+
 func newPinned() *pinned {
-	ex := &Exec{w: &World{}, sol: newSolver("z3", 20000), st: newStats(), q: newQueue(), viols: &violSet{bySig: map[string][]*Violation{}, count: map[string]int{}}}
+	if selftestSolver == nil {
+		selftestSolver = newSolver("z3", 20000)
+	}
+	ex := &Exec{w: &World{}, sol: selftestSolver, st: newStats(), q: newQueue(), viols: &violSet{bySig: map[string][]*Violation{}, count: map[string]int{}}}
 	ex.resetPath(nil)
 	ex.fuel = 1 << 40
 	return &pinned{ex: ex, vals: map[string]uint64{}}
@@ -60,7 +66,6 @@ func (p *pinned) eval(s Str) (string, bool) {
 // run executes f on a fresh path; a pathEnd (unsupported) counts as "no answer".
 func run(f func(p *pinned) (string, bool)) (out string, ok bool) {
 	p := newPinned()
-	defer p.ex.sol.close()
 	defer func() {
 		if r := recover(); r != nil {
 			out, ok = fmt.Sprint(r), false
@@ -82,8 +87,12 @@ func selftestModels() int {
 		inputs = append(inputs, string([]byte{byte(c)}))
 	}
 	inputs = append(inputs, "", "a<b>&'\"c", "<<", "&amp;", "é", "日本", "\xff\xfe", "\xe2\x80\xa8", "a\x00b", "</script>", "\\'\"", "x=y", "\r\n\t")
-	p := newPinned()
-	defer p.ex.sol.close()
+	defer func() {
+		if selftestSolver != nil {
+			selftestSolver.close()
+			selftestSolver = nil
+		}
+	}()
 	checked := 0
 	for _, in := range inputs {
 		in := in
